@@ -9,6 +9,8 @@ from simkit import terms as T
 
 ID = "C02"
 LEVEL = "exploration"
+TECHNIQUE = ('deterministic simulation (fault-free pipeline): seeded RDF 1.1 graphs/datasets x knob swarm x entry points, real rdflib writer -> channel -> real reader, oracle = input set')
+LEVEL_NOTE = ('sampling of inputs and configurations; set semantics; terms compared as rdflib holds them')
 RUNS = {"quick": 40000, "thorough": 800000}
 RULE = ("seeded runs of the fault-free pipeline with the rdflib integration: RDF 1.1 graph/dataset x knob "
         "swarm x entry point; non-trivial = >=2 distinct statements parsed back; distinct = distinct "
